@@ -48,6 +48,8 @@ type watchLine struct {
 	Watches   int      `json:"watches"`
 	Expect    int      `json:"expect"`  // watches expected once established (-1: not waited for)
 	Crashed   bool     `json:"crashed"` // written by the driver when the process was taken down during this scenario
+	// AfterCancel: inotify watches still open after a shutdown during which the consumer did not read (-1: not measured)
+	AfterCancel int `json:"after_cancel"`
 	Msg       string   `json:"msg"`
 }
 
@@ -77,7 +79,7 @@ func appendOnce(path string) error {
 }
 
 func runWatchScenario(root string, sc watchScenario) (watchLine, error) {
-	line := watchLine{Ev: "watcher", ID: sc.ID, Writes: []string{}}
+	line := watchLine{Ev: "watcher", ID: sc.ID, Writes: []string{}, AfterCancel: -1}
 	files := map[string]bool{"hidi-config/user/keyboard/zz_barrier1.toml": true, "hidi-config/factory/gamepad/zz_barrier2.toml": true}
 	for _, op := range sc.Ops {
 		if op.Op == "write" || op.Op == "trunc" || op.Op == "pwrite" {
@@ -215,6 +217,14 @@ func runWatchScenario(root string, sc watchScenario) (watchLine, error) {
 		// shut down while the consumer is not reading (the application's consumer stops for good at shutdown): give
 		// the watcher's goroutines time to finish - or to fall over - before the consumer looks again
 		time.Sleep(300 * time.Millisecond)
+		// "the watcher stops": its watches are gone although nobody reads the stream (up to 2 s more are granted)
+		for dl := time.Now().Add(2 * time.Second); ; {
+			line.AfterCancel = inotifyWatches()
+			if line.AfterCancel == 0 || time.Now().After(dl) {
+				break
+			}
+			time.Sleep(20 * time.Millisecond)
+		}
 	}
 	atomic.StoreInt32(&paused, 0)
 	if !cancelled {
